@@ -59,6 +59,11 @@ pub fn range_hist(case: &Value, mode: &str, rep: &mut Report) {
                 rep.checks += 1;
                 if !g!("maybe_exhausted", d.maybe_exhausted()) { bad(rep, format!("decoder over {:?} not maybe_exhausted after the last symbol", words)); }
             }
+            // the same message with temporary views taken (and dropped) between the symbols still seals to a stream that decodes
+            { let mut a = g!("new", renc_new(w, s));
+              for h in &hist { let _ = g!("get_compressed", a.get_compressed()); let _ = g!("encode_symbol", a.enc(h[0] as usize, &slot_cdf(h[0] as usize, h[1], h[2]), 1)); let _ = g!("get_compressed", a.get_compressed()); }
+              let w2 = g!("into_compressed", a.into_compressed());
+              if decode_all(&w2, rep, "round trip with temporary views between symbols").is_none() { return; } }
             // into_decoder is the same thing
             let mut d2 = g!("into_decoder", enc.clone_box().into_decoder());
             for (i, h) in hist.iter().enumerate() {
@@ -224,6 +229,11 @@ pub fn range_hist(case: &Value, mode: &str, rep: &mut Report) {
             rep.checks += 1;
             if words.len() > n + nw { bad(rep, format!("{} symbols produced {} words (> n + State::BITS/Word::BITS)", n, words.len())); }
             for i in 0..=n { let nwi = g!("num_words", prefixes[i].num_words()); if nwi > i + nw { bad(rep, format!("num_words() = {} after {} symbols", nwi, i)); } }
+            // inspections between the symbols must not make the coder grow
+            { let mut a = g!("new", renc_new(w, s));
+              for (i, h) in hist.iter().enumerate() { let _ = g!("encode_symbol", a.enc(h[0] as usize, &slot_cdf(h[0] as usize, h[1], h[2]), 1)); let _ = g!("get_compressed", a.get_compressed()); if i % 2 == 0 { let _ = g!("get_compressed", a.get_compressed()); }
+                  rep.checks += 1; let nwi = g!("num_words", a.num_words()); if nwi > i + 1 + nw { bad(rep, format!("with inspections: num_words() = {} after {} symbols", nwi, i + 1)); return; } }
+              let w2 = g!("into_compressed", a.into_compressed()); if w2.len() > n + nw { bad(rep, format!("with inspections: {} symbols produced {} words", n, w2.len())); } }
             // bits <= sum of information contents + n * log2(1/(1-2^-(S-W-P))) + 2W, in exact integer form:
             // 2^(W*len) * prod p_i * prod (2^k_i - 1) <= 2^(2W) * 2^(sum P_i) * prod 2^k_i,  k_i = S - W - P_i  (skipped if some k_i = 0)
             if hist.iter().all(|h| s - w > h[0] as u32) && n > 0 {
